@@ -94,6 +94,31 @@ type zvSess struct {
 	bAnnounced bool
 	updChanged int
 	oB zvPeerOpts
+	curEvent string
+	trans []zvFSMTrans // fine-grained FSM transitions of session A, from the FSM's own state-change log
+}
+
+// zvFSMTrans is one state change of session A with the abstract observation sampled when it was logged.
+type zvFSMTrans struct {
+	Old, New, Reason string
+	Conn             string // status of fsm.con when the transition was logged
+	Att              bool   // routes attached (for transitions into Established: sampled at the next quiescent point)
+	PreConn          string
+	PreAtt           bool
+	Event            string // harness event during which it happened
+}
+
+func (s *zvSess) connStatus() string {
+	if s.fA == nil || s.fA.con == nil {
+		return "none"
+	}
+	if c, ok := s.fA.con.(*zvConn); ok {
+		if c.closed {
+			return "closed"
+		}
+		return "open"
+	}
+	return "open"
 }
 
 var (
@@ -132,6 +157,19 @@ func zvSessStart(cfg zvSessCfg) *zvSess {
 	// session A
 	s.pA = s.w.addPeer(cfg.A)
 	s.fA = s.pA.fsms[0]
+	peerA := zvPeerIP(cfg.A).String()
+	preConn, preAtt := "none", false
+	s.w.onFSMLog = func(peer, oldS, newS, reason string) {
+		if peer != peerA {
+			return
+		}
+		t := zvFSMTrans{Old: oldS, New: newS, Reason: reason, Conn: s.connStatus(), Att: s.fA.ribsInitialized, PreConn: preConn, PreAtt: preAtt, Event: s.curEvent}
+		s.trans = append(s.trans, t)
+		preConn, preAtt = t.Conn, t.Att
+		if newS == stateNameEstablished {
+			preAtt = true // attachment happens right after the transition is logged; verified at the quiescent point
+		}
+	}
 	vsched.Settle()
 	return s
 }
@@ -186,6 +224,7 @@ func (s *zvSess) enabled() []string {
 }
 
 func (s *zvSess) apply(e string) {
+	s.curEvent = e
 	ribInBefore := s.ribInDigest()
 	switch e {
 	case evT15:
@@ -371,6 +410,7 @@ func pendingIn(c *zvConn) int {
 
 // zvSessTrace is the result of replaying one history.
 type zvSessTrace struct {
+	Trans   []zvFSMTrans
 	Obs     []zvObs // Obs[0] initial, Obs[i] after event i
 	Enabled []string
 	Canon   string
@@ -389,6 +429,7 @@ func zvSessReplay(cfg zvSessCfg, hist []string, trace bool) zvSessTrace {
 			t.Obs = append(t.Obs, s.observe())
 		}
 		t.Enabled = s.enabled()
+		t.Trans = s.trans
 		t.Canon = t.Obs[len(t.Obs)-1].canon(s)
 	})
 	t.Status, t.Crash, t.Blocked = x.Status, x.Crash, x.Blocked
